@@ -86,7 +86,11 @@ def netRelabelled (perm dirS adjS wS : String) : String :=
     mvec n fun i => showRat (Net.nsiDegree dir n a w i),
     mvec n fun i => showRat (Net.nsiLocalClustering n a w i),
     -- round 4
-    showOptRat (Net.assortativity dir n a)] "|"
+    showOptRat (Net.assortativity dir n a),
+    -- round 5: node removal (igraph's shifting renumbering) + BFS + efficiencies; cliquishness kernels
+    mvec n fun i => showOptRat (Net.localVulnerability n a i),
+    showRats (Net.cliquishness 4 n a (Net.outdeg n a)),
+    showRats (Net.cliquishness 5 n a (Net.outdeg n a))] "|"
 
 /-- `Pyunicorn.Cross` (C11) on the renumbered network with the renumbered node lists -/
 def crossRelabelled (perm dirS adjS wS l1 l2 dS : String) : String :=
